@@ -184,6 +184,9 @@ def check(F, R, tier):
     n = 0
     for f in F.find_fns(r'^iceoryx2::port::writer::EntryValueUninit::<.*>::update_with_copy$'):
         ups = f.calls(r'__internal_update_write_cell$')
+        # publishing may be delegated to a sibling of the same type that publishes (assume_init_and_update): the write still precedes it
+        pubs = {g_.id for g_ in F.find_fns(r'^iceoryx2::port::writer::EntryValueUninit::<.*>::\w+$') if g_.calls(r'__internal_update_write_cell$') and g_ is not f}
+        ups += [c_ for c_ in f.sites if c_.is_call and c_.callee in pubs]
         ws = raw(f, 'write', r'self\.ptr')
         dom(R, f, ws, ups, 'ptr-write<update_write_cell', 'the loaned cell is filled before it is published')
         n += len(ups)
